@@ -807,6 +807,32 @@ func (t *tracer) dataCase(g *gen, id int) {
 	}
 	content := g.wire()
 	sk := g.signer(false)
+	// one case in five: pad the content so that the outer Data length computed with the signer's ESTIMATE lands on 253..256
+	// (or 65536..), where attaching a shorter signature changes the size of the length field itself (ShrinkLength boundary)
+	if sk.signer != nil && g.r.Intn(5) == 0 {
+		func() {
+			defer func() { recover() }()
+			probe, err := sp.MakeData(nm, cfg, enc.Wire{[]byte{}}, sk.signer)
+			if err != nil || probe == nil {
+				return
+			}
+			est := int(sk.signer.EstimateSize())
+			cur := len(join(probe.Wire)) - 2 // value length with an empty content (outer header of a short packet is 2 bytes)
+			if sig := probe.Wire[len(probe.Wire)-1]; est > 0 {
+				cur += est - len(sig)
+			}
+			target := 253 + g.r.Intn(4)
+			if g.r.Intn(6) == 0 && g.big {
+				target = 65536 + g.r.Intn(4)
+			}
+			if pad := target - cur; pad >= 0 && pad < 70000 {
+				if pad >= 253 {
+					pad -= 2 // the content length field itself grows
+				}
+				content = enc.Wire{g.rbytes(pad / 2), g.rbytes(pad - pad/2)}
+			}
+		}()
+	}
 	var rec *recSigner
 	var signer ndn.Signer
 	if sk.signer != nil {
